@@ -22,7 +22,16 @@ type Constant interface {
 
 // String returns a representation the 32-bit float which is guaranteed to be
 // parsed as a floating point constant by the Go assembler.
-func (f F32) String() string { return asmfloat(float64(f), 32) }
+func (f F32) String() string {
+	s := asmfloat(float64(f), 32)
+	// The assembler parses the literal as a 64-bit float and then narrows it to
+	// 32 bits. For a few values the shortest 32-bit representation does not
+	// survive that double rounding; fall back to the exact 64-bit digits.
+	if v, err := strconv.ParseFloat(s, 64); err != nil || float32(v) != float32(f) {
+		s = asmfloat(float64(f), 64)
+	}
+	return s
+}
 
 // String returns a representation the 64-bit float which is guaranteed to be
 // parsed as a floating point constant by the Go assembler.
